@@ -4,6 +4,7 @@ import TantivyModel.Proofs.GrammarFoldNeg
 import TantivyModel.Proofs.GrammarChars
 import TantivyModel.Proofs.GrammarPhrase
 import TantivyModel.Proofs.GrammarCharsPrint
+import TantivyModel.Proofs.GrammarCharsPrintList
 import TantivyModel.Model.Grammar.Agree
 /-!
 # C16 — The query parser is total and implements its documented grammar
@@ -293,8 +294,9 @@ theorem C16_strict_panic_witness :
    ASCII letters and digits that is not a keyword (`C16_print_parse_leaf`, through step lemmas for
    each matcher: `wordRest`, `word`, `fieldName`, `range`, `set`, `exists_`, `regex`, `simpleTerm`,
    `plainLiteral`, `pLeaf`, `pOccurLeaf`, `pAst`, for every fuel ≥ 3); (2) the documented concrete
-   forms below as kernel-checked evaluations. Groups by induction need the same step lemmas with a
-   non-empty remainder (`w ++ ' ' :: rest`) and are not done. -/
+   forms below as kernel-checked evaluations; (3) operand lists of plain words with markers and
+   AND/OR for every layout choice (`C16_print_parse_operands`, by induction). Still open: nested
+   groups (parentheses), field prefixes, quoted phrases, ranges, sets and boosts inside the ∀ form. -/
 /-- **print/parse at leaf level, for all words**: the strict parser (with or without the guard)
     reads a word of ASCII letters and digits that is not `OR`/`AND`/`NOT`/`IN` as the unfielded,
     unquoted literal with exactly that text -/
@@ -303,6 +305,24 @@ theorem C16_print_parse_leaf (guard : Bool) (w : Str) (h : PlainWord w) :
   parseStrictWith_plain guard w h
 
 example : PlainWord ['a', 'b', 'c'] := plainWord_abc
+
+/-- **print/parse for operand lists, for every layout choice of the printer**: the text
+    `[+|-]w₀ ( [AND |OR ] [+|-]wᵢ )*` of plain words — any number of leading blanks, at least one
+    blank (any number) before each further operand, any number of blanks after an operator keyword,
+    any number of trailing blanks — is read by the strict parser (with or without the guard) as the
+    fold of exactly those items (`strictAst` = the fold of `C16_precedence` / `C16_markers` /
+    `C16_precedence_markers`), followed by `rewrite_ast`. By induction over the operand list, on
+    step lemmas for each matcher with a remainder (`Proofs/GrammarCharsRem.lean`). -/
+theorem C16_print_parse_operands (guard : Bool) (lead : Nat) (occ : Option Occur) (w : Str)
+    (more : List PItem) (k : Nat) (hw : PlainWord w) (hm : ∀ it ∈ more, PlainWord it.word) :
+    ∃ t, strictAst (normOcc occ, leafOf w) (more.map itemOf) = .ok t
+      ∧ parseStrictWith guard (printList lead occ w more k) = .tree (rewrite t) :=
+  parseStrictWith_print guard lead occ w more k hw hm
+
+/-- ` a   AND b OR  -c ` is such a text -/
+example : printList 1 none ['a'] [⟨some .and, none, ['b'], 2, 0⟩, ⟨some .or, some .mustNot, ['c'], 0, 1⟩] 1
+    = [' ', 'a', ' ', ' ', ' ', 'A', 'N', 'D', ' ', 'b', ' ', 'O', 'R', ' ', ' ', '-', 'c', ' '] := by decide
+example : PlainWord ['b'] ∧ PlainWord ['c'] := ⟨⟨by simp, by decide, by decide⟩, ⟨by simp, by decide, by decide⟩⟩
 
 /-- `C16_print_parse_partial`: the documented forms parse to the documented trees -/
 theorem C16_print_parse_partial :
